@@ -353,8 +353,13 @@ func (m *Machine) resolveAnchors() error {
 		}
 		sig := mt.Type().(*types.Signature)
 		// foundAt: (Index, EventType) with body  s.X = append(s.X, ...)
-		if sig.Params().Len() == 2 && sig.Results().Len() == 0 && len(fd.Body.List) == 1 {
-			if as, ok := fd.Body.List[0].(*ast.AssignStmt); ok && len(as.Rhs) == 1 {
+		if sig.Params().Len() == 2 && sig.Results().Len() == 0 && len(fd.Body.List) <= 3 {
+			// straight-line body one statement of which is  s.X = append(s.X, ...)
+			for _, st := range fd.Body.List {
+				as, ok := st.(*ast.AssignStmt)
+				if !ok || len(as.Rhs) != 1 || len(as.Lhs) != 1 {
+					continue
+				}
 				if call, ok := as.Rhs[0].(*ast.CallExpr); ok {
 					if id, ok := call.Fun.(*ast.Ident); ok && id.Name == "append" {
 						if sel, ok := as.Lhs[0].(*ast.SelectorExpr); ok {
